@@ -1,3 +1,401 @@
-//! C17 bounded native checks (not written yet)
-use super::Report;
-pub fn run() -> Option<Report> { None }
+//! C17 bounded: series and discrete domains stay sorted, finite and function-preserving.
+//! Input space (all enumerated, no RNG):
+//!  * constructor vectors: every vector of length 0..=4 over {-inf, -1, 0, 0.5, 1, +inf, NaN} (try_from / try_new),
+//!    every push chain of length <= 3 over the same values, linear / linear_space for all ordered pairs of bounds over
+//!    {-1, 0, 0.5, 1, 2, 3} (either order, equal bounds) and n in {2, 3, 4, 5, 9};
+//!  * series: every non-decreasing abscissa vector of length 1..=4 over {0, 0.5, 1, 2, 3} (repeated values included)
+//!    with every ordinate vector over {-1, 0, 1, 2};  probes / bounds over {-1, 0, 0.25, 0.5, 0.75, 1, 1.5, 2, 2.5, 3, 4},
+//!    levels over {-1, -0.5, 0, 0.5, 1, 1.5, 2, 3}, counts {2, 3, 4, 5, 7, 9}, spacings {0.25, 0.5, 0.75, 1, 4},
+//!    scale factors {-2, -1, -0.5, 0.5, 2} x {-1, 2}, shifts {-1.5, 0, 2};
+//!  * an "inexact stepping" family for resampling: two-knot series [0, b], b = k/10 (k = 1..=19), and [a, a + b] for
+//!    a in {0.1, 1/3}, counts 2..=24;
+//!  * NaN ordinates (remove_nan): series of length 1..=4 over the abscissae above (length <= 3 exhaustively) with
+//!    ordinates over {NaN, 0, 1}.
+//! Oracles are brute force: the piecewise-linear graph is evaluated segment by segment; at a repeated abscissa the graph
+//! is the SET of ordinates stored there.  Outside the stated preconditions of props/C17.json (empty series, n < 2,
+//! NaN probe, slice entirely left of the domain) nothing is evaluated.
+use super::{close, Report};
+use crate::common::{linear_space, DiscreteDomain, Interval};
+use crate::func1::{Func1, Series1};
+use std::panic::{catch_unwind, AssertUnwindSafe};
+
+const XS: [f64; 5] = [0.0, 0.5, 1.0, 2.0, 3.0];
+const YS: [f64; 4] = [-1.0, 0.0, 1.0, 2.0];
+const PROBES: [f64; 11] = [-1.0, 0.0, 0.25, 0.5, 0.75, 1.0, 1.5, 2.0, 2.5, 3.0, 4.0];
+const LEVELS: [f64; 8] = [-1.0, -0.5, 0.0, 0.5, 1.0, 1.5, 2.0, 3.0];
+const COUNTS: [usize; 6] = [2, 3, 4, 5, 7, 9];
+const SPACINGS: [f64; 5] = [0.25, 0.5, 0.75, 1.0, 4.0];
+const RAW: [f64; 7] = [f64::NEG_INFINITY, -1.0, 0.0, 0.5, 1.0, f64::INFINITY, f64::NAN];
+
+fn guarded<T>(f: impl FnOnce() -> T) -> Option<T> { catch_unwind(AssertUnwindSafe(f)).ok() }
+
+fn finite_ascending(v: &[f64]) -> bool { v.iter().all(|x| x.is_finite()) && v.windows(2).all(|w| w[0] <= w[1]) }
+fn same_bits_or_eq(a: &[f64], b: &[f64]) -> bool { a.len() == b.len() && a.iter().zip(b).all(|(p, q)| p == q || (p.is_nan() && q.is_nan())) }
+/// the representation invariant of the property: finite ascending abscissae, matching number of ordinates
+fn inv(s: &Series1) -> bool { finite_ascending(s.x.values()) && s.x.values().len() == s.y.len() }
+
+/// ORACLE: the set of values of the piecewise-linear graph (xs, ys) at x; empty = outside the domain (NaN expected)
+fn graph_vals(xs: &[f64], ys: &[f64], x: f64) -> Vec<f64> {
+    let n = xs.len();
+    let mut out = vec![];
+    if n == 0 || !(x >= xs[0] && x <= xs[n - 1]) { return out; }
+    for k in 0..n { if xs[k] == x { out.push(ys[k]); } }
+    if out.is_empty() {
+        for j in 0..n - 1 {
+            if xs[j] < x && x < xs[j + 1] {
+                out.push(ys[j] + (ys[j + 1] - ys[j]) * ((x - xs[j]) / (xs[j + 1] - xs[j])));
+            }
+        }
+    }
+    out
+}
+fn same_val(a: f64, b: f64) -> bool { (a.is_nan() && b.is_nan()) || close(a, b) }
+fn on_graph(xs: &[f64], ys: &[f64], x: f64, v: f64) -> bool {
+    let g = graph_vals(xs, ys, x);
+    if g.is_empty() { v.is_nan() } else { g.iter().any(|&w| same_val(v, w)) }
+}
+/// ORACLE: trapezoid area of the graph
+fn area(xs: &[f64], ys: &[f64]) -> f64 { (0..xs.len().saturating_sub(1)).map(|i| (xs[i + 1] - xs[i]) * (ys[i] + ys[i + 1]) * 0.5).sum() }
+/// ORACLE: abscissae where a non-vertical segment of the graph meets the level (both ends of a flat segment on the level)
+fn crossings(xs: &[f64], ys: &[f64], level: f64) -> Vec<f64> {
+    let mut out: Vec<f64> = vec![];
+    for j in 0..xs.len().saturating_sub(1) {
+        let (x0, x1, v0, v1) = (xs[j], xs[j + 1], ys[j], ys[j + 1]);
+        if x0 == x1 { continue; }
+        if v0.min(v1) <= level && level <= v0.max(v1) {
+            if v0 == v1 { out.push(x0); out.push(x1); } else { out.push(x0 + (x1 - x0) * ((level - v0) / (v1 - v0))); }
+        }
+    }
+    out.sort_by(|a, b| a.partial_cmp(b).unwrap());
+    out.dedup_by(|a, b| (*a - *b).abs() <= 1e-9);
+    out
+}
+fn same_set(a: &[f64], b: &[f64]) -> bool { a.iter().all(|p| b.iter().any(|q| close(*p, *q))) && b.iter().all(|p| a.iter().any(|q| close(*p, *q))) }
+
+// ------------------------------------------------------------------------------------------------ enumeration helpers
+fn tuples(vals: &[f64], len: usize, f: &mut dyn FnMut(&[f64])) {
+    let mut idx = vec![0usize; len];
+    let mut cur = vec![0.0; len];
+    loop {
+        for k in 0..len { cur[k] = vals[idx[k]]; }
+        f(&cur);
+        let mut p = len;
+        loop {
+            if p == 0 { return; }
+            p -= 1;
+            idx[p] += 1;
+            if idx[p] < vals.len() { break; }
+            idx[p] = 0;
+        }
+    }
+}
+fn ascending_tuples(vals: &[f64], len: usize, f: &mut dyn FnMut(&[f64])) {
+    tuples(vals, len, &mut |t| { if t.windows(2).all(|w| w[0] <= w[1]) { f(t) } });
+}
+
+// ------------------------------------------------------------------------------------------------ constructors
+fn check_constructors(r: &mut Report) {
+    for len in 0..=4usize {
+        tuples(&RAW, len, &mut |v| {
+            r.case();
+            let d = || format!("DiscreteDomain::try_from({:?})", v);
+            let valid = finite_ascending(v);
+            match guarded(|| DiscreteDomain::try_from(v.to_vec())) {
+                None => r.check(false, "try_from: returns (no panic)", d),
+                Some(Ok(dom)) => {
+                    r.check(valid, "try_from: Ok only for finite ascending values (never a silently invalid domain)", d);
+                    r.check(same_bits_or_eq(dom.values(), v), "try_from: the accepted domain holds exactly the given values", d);
+                }
+                Some(Err(_)) => r.check(!valid, "try_from: finite ascending values are accepted", d),
+            }
+            // Series1::try_new: matching / short / long ordinate vectors
+            for ylen in [len, len + 1, len.saturating_sub(1)] {
+                let y: Vec<f64> = (0..ylen).map(|k| k as f64 - 1.0).collect();
+                let d2 = || format!("Series1::try_new({:?}, {:?})", v, y);
+                match guarded(|| Series1::try_new(v.to_vec(), y.clone())) {
+                    None => r.check(false, "try_new: returns (no panic)", d2),
+                    Some(Ok(s)) => {
+                        r.check(valid && ylen == len, "try_new: Ok only for finite ascending abscissae with a matching number of ordinates", d2);
+                        r.check(same_bits_or_eq(s.x.values(), v) && same_bits_or_eq(&s.y, &y), "try_new: the series holds exactly the given vectors", d2);
+                    }
+                    Some(Err(_)) => r.check(!(valid && ylen == len), "try_new: valid input is accepted", d2),
+                }
+            }
+        });
+    }
+    // push chains from the empty domain
+    for len in 1..=3usize {
+        tuples(&RAW, len, &mut |seq| {
+            r.case();
+            let d = || format!("DiscreteDomain::default() then push each of {:?}", seq);
+            let mut dom = DiscreteDomain::default();
+            let mut model: Vec<f64> = vec![];
+            for &v in seq {
+                let expect_ok = v.is_finite() && model.last().map_or(true, |l| v >= *l);
+                match guarded(|| dom.push(v).is_ok()) {
+                    None => { r.check(false, "push: returns (no panic)", d); return; }
+                    Some(ok) => {
+                        r.check(ok == expect_ok, "push: Ok exactly for a finite value not below the last one", d);
+                        if ok { model.push(v); }
+                    }
+                }
+                // the model only follows accepted pushes: a wrongly accepted value shows up in both clauses below
+                r.check(finite_ascending(dom.values()), "push: the domain stays finite and ascending", d);
+                if finite_ascending(&model) { r.check(same_bits_or_eq(dom.values(), &model), "push: appends the accepted value, leaves the domain unchanged on error", d); }
+            }
+        });
+    }
+    // linear spacing, bounds in either order
+    let b = [-1.0, 0.0, 0.5, 1.0, 2.0, 3.0];
+    for &a0 in b.iter() { for &a1 in b.iter() { for n in [2usize, 3, 4, 5, 9] {
+        r.case();
+        for which in 0..2 {
+            let name = if which == 0 { "DiscreteDomain::linear" } else { "linear_space" };
+            let d = || format!("{}({:?}, {:?}, {})", name, a0, a1, n);
+            let got = guarded(|| if which == 0 { DiscreteDomain::linear(a0, a1, n) } else { linear_space(a0, a1, n) });
+            let Some(dom) = got else { r.check(false, "linear: returns (no panic)", d); continue; };
+            let v = dom.values();
+            let (lo, hi) = (a0.min(a1), a0.max(a1));
+            r.check(v.len() == n, "linear: n values", d);
+            r.check(finite_ascending(v), "linear: finite ascending values for bounds in either order", d);
+            if v.len() == n {
+                r.check(v[0] == lo, "linear: first value is the smaller bound", d);
+                r.check(close(v[n - 1], hi), "linear: last value is the larger bound", d);
+                r.check((0..n).all(|k| close(v[k], lo + (k as f64) * (hi - lo) / ((n - 1) as f64))), "linear: evenly spaced", d);
+                r.check(lo == hi || v.windows(2).all(|w| w[0] < w[1]), "linear: distinct bounds do not collapse", d);
+            }
+        }
+    } } }
+}
+
+// ------------------------------------------------------------------------------------------------ one series
+fn check_piece(r: &mut Report, xs: &[f64], ys: &[f64], p: &Series1, lo: f64, hi: f64, what: &str, d: &dyn Fn() -> String) {
+    let n = xs.len();
+    let px = p.x.values();
+    let cl = |c: &str| format!("{}: {}", what, c);
+    r.check(inv(p), &cl("finite ascending abscissae with a matching number of ordinates"), d);
+    if !inv(p) || px.is_empty() { r.check(!px.is_empty(), &cl("non-empty piece"), d); return; }
+    r.check(px[0] == lo.max(xs[0]), &cl("left end exactly at the requested bound (the first knot if the bound lies before the domain)"), d);
+    r.check(px[px.len() - 1] == hi, &cl("right end exactly at the requested bound"), d);
+    r.check((0..px.len()).all(|k| on_graph(xs, ys, px[k], p.y[k])), &cl("same value as the parent at every returned abscissa"), d);
+    // no parent knot inside (lo, hi] is dropped
+    r.check((0..n).all(|j| !(lo < xs[j] && xs[j] <= hi) || (0..px.len()).any(|k| px[k] == xs[j] && same_val(p.y[k], ys[j]))),
+        &cl("every parent knot inside the interval is kept with its ordinate"), d);
+    // the piece evaluates like the parent between its knots and at its ends
+    let mut ok_mid = true;
+    for k in 0..px.len() - 1 {
+        if px[k] < px[k + 1] {
+            for f in [0.25, 0.5] {
+                let m = px[k] + (px[k + 1] - px[k]) * f;
+                let g = graph_vals(xs, ys, m);
+                let Some(v) = guarded(|| p.interpolate(m)) else { ok_mid = false; continue; };
+                // left of the parent's domain or right of it the parent is NaN; a piece reaching there blends with NaN
+                ok_mid &= if g.is_empty() { v.is_nan() } else { g.iter().any(|w| same_val(v, *w)) };
+            }
+        }
+    }
+    r.check(ok_mid, &cl("same value as the parent between the returned abscissae"), d);
+    for e in [px[0], px[px.len() - 1]] {
+        let v = guarded(|| p.interpolate(e));
+        r.check(v.map_or(false, |v| on_graph(xs, ys, e, v)), &cl("evaluates like the parent at its ends"), d);
+    }
+}
+
+fn check_series(r: &mut Report, xs: &[f64], ys: &[f64]) {
+    let Ok(s) = Series1::try_new(xs.to_vec(), ys.to_vec()) else { r.check(false, "try_new: valid input is accepted", || format!("{:?} {:?}", xs, ys)); return; };
+    r.case();
+    let n = xs.len();
+    let (x_min, x_max) = (xs[0], xs[n - 1]);
+    let sd = format!("Series1 x={:?} y={:?}", xs, ys);
+
+    // ---- interpolation
+    let mut probes: Vec<f64> = PROBES.to_vec();
+    probes.extend_from_slice(&[f64::NEG_INFINITY, f64::INFINITY, 0.125, 2.75]);
+    for &x in probes.iter() {
+        let d = || format!("{} interpolate({:?})", sd, x);
+        let Some(v) = guarded(|| s.interpolate(x)) else { r.check(false, "interpolate: returns (no panic)", d); continue; };
+        let g = graph_vals(xs, ys, x);
+        if g.is_empty() { r.check(v.is_nan(), "interpolate: NaN outside the domain", d); }
+        else if xs.contains(&x) { r.check(g.iter().any(|w| *w == v), "interpolate: the stored value at a knot", d); }
+        else { r.check(g.iter().any(|w| close(*w, v)), "interpolate: the linear blend between knots", d); }
+        r.check(guarded(|| s.f(x)).map_or(false, |w| same_val(w, v)), "Func1::f agrees with interpolate", d);
+    }
+    r.check(guarded(|| s.x_min()) == Some(x_min) && guarded(|| s.x_max()) == Some(x_max), "x_min / x_max are the first and last abscissa", || sd.clone());
+
+    // ---- area
+    let whole = area(xs, ys);
+    let a_real = guarded(|| s.area_under());
+    r.check(a_real.map_or(false, |a| close(a, whole)), "area_under: sum of the trapezoids", || sd.clone());
+
+    // ---- slices
+    for (i0, &x0) in PROBES.iter().enumerate() { for &x1 in PROBES[i0..].iter() {
+        if x1 < x_min { continue; }    // stated precondition: the slice reaches into the domain from the left
+        let d = || format!("{} between({:?}, {:?})", sd, x0, x1);
+        let Some(p) = guarded(|| s.between(x0, x1)) else { r.check(false, "between: returns (no panic)", &d); continue; };
+        check_piece(r, xs, ys, &p, x0, x1, "between", &d);
+        if let Some(q) = guarded(|| s.in_interval(Interval::new(x0, x1))) {
+            r.check(same_bits_or_eq(q.x.values(), p.x.values()) && same_bits_or_eq(&q.y, &p.y), "in_interval: the same piece as between(min, max)", &d);
+        } else { r.check(false, "in_interval: returns (no panic)", &d); }
+    } }
+
+    // ---- splits
+    for &x in PROBES.iter() {
+        let d = || format!("{} split_at_x({:?})", sd, x);
+        let Some((a, b)) = guarded(|| s.split_at_x(x)) else { r.check(false, "split_at_x: returns (no panic)", &d); continue; };
+        let is_whole = |p: &Option<Series1>| p.as_ref().map_or(false, |p| p.x.values() == xs && p.y == ys);
+        if x > x_max { r.check(is_whole(&a) && b.is_none(), "split_at_x: right of the domain: (whole, None)", &d); continue; }
+        if x < x_min { r.check(a.is_none() && is_whole(&b), "split_at_x: left of the domain: (None, whole)", &d); continue; }
+        let (Some(a), Some(b)) = (a, b) else { r.check(false, "split_at_x: two pieces inside the domain", &d); continue; };
+        check_piece(r, xs, ys, &a, x_min, x, "split_at_x lower piece", &d);
+        check_piece(r, xs, ys, &b, x, x_max, "split_at_x upper piece", &d);
+        if inv(&a) && inv(&b) {
+            let (aa, ab) = (guarded(|| a.area_under()), guarded(|| b.area_under()));
+            r.check(matches!((aa, ab), (Some(p), Some(q)) if close(p + q, whole) && close(p, area(a.x.values(), &a.y)) && close(q, area(b.x.values(), &b.y))),
+                "split_at_x: areas of the pieces add up to the whole", &d);
+        }
+    }
+
+    // ---- resampling
+    for &k in COUNTS.iter() { check_resampled(r, &s, xs, ys, &format!("{} resampled_n({})", sd, k), guarded(|| s.resampled_n(k)), Some(k)); }
+    for &sp in SPACINGS.iter() { check_resampled(r, &s, xs, ys, &format!("{} resampled_x({:?})", sd, sp), guarded(|| s.resampled_x(sp)), None); }
+
+    // ---- level crossings
+    for &lv in LEVELS.iter() {
+        let d = || format!("{} y_crossings({:?})", sd, lv);
+        let Some(c) = guarded(|| s.y_crossings(lv)) else { r.check(false, "y_crossings: returns (no panic)", &d); continue; };
+        r.check(c.iter().all(|x| x.is_finite()) && c.windows(2).all(|w| w[0] < w[1]), "y_crossings: finite, strictly ascending (unique)", &d);
+        r.check(c.iter().all(|&x| graph_vals(xs, ys, x).iter().any(|w| close(*w, lv))), "y_crossings: the interpolant equals the level at every reported abscissa", &d);
+        let want = crossings(xs, ys, lv);
+        r.check(want.iter().all(|p| c.iter().any(|q| close(*p, *q))), "y_crossings: every abscissa where a segment meets the level is reported (knots on the level, flat segments included)", &d);
+        r.check(same_set(&c, &want), "y_crossings: exactly the abscissae where the interpolant equals the level", &d);
+    }
+
+    // ---- scaling (negative factors included), shifting, chains
+    for &sx in [-2.0, -1.0, -0.5, 0.5, 2.0].iter() { for &sy in [-1.0, 2.0].iter() {
+        let d = || format!("{} scaled_by({:?}, {:?})", sd, sx, sy);
+        let Some(t) = guarded(|| s.scaled_by(sx, sy)) else { r.check(false, "scaled_by: returns (no panic)", &d); continue; };
+        r.check(inv(&t) && t.y.len() == n, "scaled_by: finite ascending abscissae with a matching number of ordinates", &d);
+        if !(inv(&t) && t.y.len() == n) { continue; }
+        let ok = (0..n).all(|k| { let q = if sx < 0.0 { n - 1 - k } else { k }; t.x.values()[q] == xs[k] * sx && t.y[q] == ys[k] * sy });
+        r.check(ok, "scaled_by: point k maps to (sx * x, sy * y), order reversed for a negative factor", &d);
+        r.check(t.x.values().first() != t.x.values().last() || x_min == x_max, "scaled_by: does not collapse", &d);
+        let okf = probes.iter().filter(|p| p.is_finite()).all(|&p| {
+            let g = graph_vals(xs, ys, p);
+            guarded(|| t.interpolate(p * sx)).map_or(false, |v| if g.is_empty() { v.is_nan() } else { g.iter().any(|w| same_val(*w * sy, v)) })
+        });
+        r.check(okf, "scaled_by: the scaled series evaluates to sy * f(x) at sx * x", &d);
+    } }
+    for &dx in [-1.5, 0.0, 2.0].iter() {
+        let dy = 0.5;
+        let d = || format!("{} shift_by({:?}, {:?})", sd, dx, dy);
+        let Some(t) = guarded(|| s.shift_by(dx, dy)) else { r.check(false, "shift_by: returns (no panic)", &d); continue; };
+        r.check(inv(&t) && t.y.len() == n, "shift_by: finite ascending abscissae with a matching number of ordinates", &d);
+        if !(inv(&t) && t.y.len() == n) { continue; }
+        r.check((0..n).all(|k| t.x.values()[k] == xs[k] + dx && t.y[k] == ys[k] + dy), "shift_by: point k maps to (x + dx, y + dy)", &d);
+    }
+    // chain: mirror about x = 1.5 (scale by -1, shift by 3), slice, resample -- the invariant and the function survive
+    if n >= 2 && x_min < x_max {
+        let d = || format!("{} scaled_by(-1, 1).shift_by(3, 0).between(0.5, 2.5).resampled_n(5)", sd);
+        let got = guarded(|| { let m = s.scaled_by(-1.0, 1.0).shift_by(3.0, 0.0); let lo = 0.5f64.max(m.x_min()); let hi = 2.5f64.min(m.x_max()); (m.clone(), if lo <= hi { Some((lo, hi, m.between(lo, hi))) } else { None }) });
+        match got {
+            None => r.check(false, "chain: returns (no panic)", &d),
+            Some((m, piece)) => {
+                r.check(inv(&m), "chain: mirrored series keeps the invariant", &d);
+                let okm = PROBES.iter().all(|&p| { let g = graph_vals(xs, ys, 3.0 - p); guarded(|| m.interpolate(p)).map_or(false, |v| if g.is_empty() { v.is_nan() } else { g.iter().any(|w| same_val(*w, v)) }) });
+                r.check(okm, "chain: the mirrored series evaluates to f(3 - x)", &d);
+                if let Some((lo, hi, p)) = piece {
+                    r.check(inv(&p) && !p.y.is_empty() && p.x_min() == lo && p.x_max() == hi, "chain: slice of the mirrored series ends at the requested bounds", &d);
+                    if inv(&p) && !p.y.is_empty() {
+                        let q = guarded(|| p.resampled_n(5));
+                        r.check(q.as_ref().map_or(false, |q| inv(q) && q.y.len() == 5 && (0..5).all(|k| on_graph(m.x.values(), &m.y, q.x.values()[k], q.y[k]))),
+                            "chain: resampled slice lies on the mirrored graph", &d);
+                    }
+                }
+            }
+        }
+    }
+}
+
+fn check_resampled(r: &mut Report, s: &Series1, xs: &[f64], ys: &[f64], desc: &str, got: Option<Series1>, want_n: Option<usize>) {
+    let d = || desc.to_string();
+    let n = xs.len();
+    let Some(t) = got else { r.check(false, "resampled: returns (no panic)", d); return; };
+    r.check(inv(&t), "resampled: finite ascending abscissae with a matching number of ordinates", d);
+    if !inv(&t) { return; }
+    let tx = t.x.values();
+    if let Some(k) = want_n { r.check(tx.len() == k, "resampled_n: n points", d); }
+    r.check(tx.len() >= 1, "resampled: non-empty", d);
+    if tx.is_empty() { return; }
+    r.check(tx[0] == xs[0], "resampled: keeps the first end point exactly", d);
+    // two clauses for the last point: it never lies beyond the domain (the clamp), and it is the end point exactly
+    r.check(tx[tx.len() - 1] <= xs[n - 1] && tx.iter().all(|x| *x >= xs[0]), "resampled: no abscissa outside [x_min, x_max]", d);
+    r.check(tx[tx.len() - 1] == xs[n - 1], "resampled: keeps the last end point exactly", d);
+    r.check((0..tx.len()).all(|k| !t.y[k].is_nan() && on_graph(xs, ys, tx[k], t.y[k])), "resampled: every point lies on the piecewise-linear graph (finite ordinates)", d);
+    if tx.len() >= 2 {
+        let step = (xs[n - 1] - xs[0]) / ((tx.len() - 1) as f64);
+        r.check((0..tx.len()).all(|k| close(tx[k], xs[0] + (k as f64) * step)), "resampled: evenly spaced", d);
+    }
+    let _ = s;
+}
+
+fn check_nan_removal(r: &mut Report) {
+    let yn = [f64::NAN, 0.0, 1.0];
+    for len in 1..=4usize {
+        let xs_set: &[f64] = if len <= 3 { &XS } else { &XS[..4] };
+        ascending_tuples(xs_set, len, &mut |xs| {
+            tuples(&yn, len, &mut |ys| {
+                r.case();
+                let d = || format!("Series1 x={:?} y={:?} remove_nan()", xs, ys);
+                let Ok(s) = Series1::try_new(xs.to_vec(), ys.to_vec()) else { r.check(false, "try_new: valid input is accepted", d); return; };
+                let Some(t) = guarded(|| s.remove_nan()) else { r.check(false, "remove_nan: returns (no panic)", d); return; };
+                r.check(inv(&t), "remove_nan: finite ascending abscissae with a matching number of ordinates", d);
+                let keep: Vec<usize> = (0..len).filter(|k| !ys[*k].is_nan()).collect();
+                r.check(t.y.iter().all(|v| !v.is_nan()), "remove_nan: no NaN ordinate is left", d);
+                r.check(t.y.len() == keep.len() && t.x.values().len() == keep.len() && keep.iter().enumerate().all(|(q, &k)| t.x.values()[q] == xs[k] && t.y[q] == ys[k]),
+                    "remove_nan: exactly the points with a non-NaN ordinate are kept, in order", d);
+                r.check(guarded(|| s.has_nan()) == Some(keep.len() != len), "has_nan: true exactly when an ordinate is NaN", d);
+                for (x0, x1) in [(0.0, 0.5), (0.75, 2.0), (1.0, 1.0), (-1.0, 4.0)] {
+                    let want = (0..len).any(|k| ys[k].is_nan() && xs[k] >= x0 && xs[k] <= x1);
+                    r.check(guarded(|| s.has_nan_between(x0, x1)) == Some(want), "has_nan_between: true exactly when a NaN ordinate lies in [x0, x1]", || format!("{} has_nan_between({:?}, {:?})", d(), x0, x1));
+                }
+            });
+        });
+    }
+}
+
+/// two-knot series whose even stepping is inexact in binary: both end points must still be kept
+fn check_inexact_stepping(r: &mut Report) {
+    for &a in [0.0, 0.1, 1.0 / 3.0].iter() { for k in 1..=19 {
+        let b = a + (k as f64) / 10.0;
+        let xs = [a, b];
+        let ys = [1.0, 2.0];
+        let Ok(s) = Series1::try_new(xs.to_vec(), ys.to_vec()) else { continue; };
+        r.case();
+        for n in 2..=24usize {
+            check_resampled(r, &s, &xs, &ys, &format!("Series1 x={:?} y={:?} resampled_n({})", xs, ys, n), guarded(|| s.resampled_n(n)), Some(n));
+        }
+        for sp in [0.1, 0.3, 0.07] {
+            check_resampled(r, &s, &xs, &ys, &format!("Series1 x={:?} y={:?} resampled_x({:?})", xs, ys, sp), guarded(|| s.resampled_x(sp)), None);
+        }
+    } }
+}
+
+pub fn run() -> Option<Report> {
+    let mut r = Report::new("constructors on every vector of length <= 4 over {-inf,-1,0,0.5,1,+inf,NaN}, push chains <= 3, linear/linear_space over bounds {-1,0,0.5,1,2,3}^2 x n in {2,3,4,5,9}; every series with 1..=4 non-decreasing abscissae over {0,0.5,1,2,3} and ordinates over {-1,0,1,2}: interpolate / between / in_interval / split_at_x / area_under / resampled_n / resampled_x / y_crossings / scaled_by / shift_by / one chain, probes and bounds over 11 values in [-1,4], 8 levels, counts {2,3,4,5,7,9}; two-knot series with inexact stepping x counts 2..=24; remove_nan with ordinates over {NaN,0,1}");
+    // the real code is called under catch_unwind: keep the default hook from printing one message per caught panic
+    let hook = std::panic::take_hook();
+    std::panic::set_hook(Box::new(|_| {}));
+    let res = catch_unwind(AssertUnwindSafe(|| {
+        check_constructors(&mut r);
+        for len in 1..=4usize {
+            ascending_tuples(&XS, len, &mut |xs| {
+                tuples(&YS, len, &mut |ys| check_series(&mut r, xs, ys));
+            });
+        }
+        check_inexact_stepping(&mut r);
+        check_nan_removal(&mut r);
+    }));
+    std::panic::set_hook(hook);
+    if res.is_err() { r.check(false, "the bounded check itself completes (no panic outside a guarded call)", || "see stderr".to_string()); }
+    Some(r)
+}
